@@ -49,7 +49,8 @@ static OCase gen_case() {
     for (int o = PIXMAN_OP_MULTIPLY; o <= PIXMAN_OP_HSL_LUMINOSITY; o++) v.push_back(o);
     return v;
   }();
-  sc.op = coin(65) ? (int)R(PIXMAN_OP_CLEAR, PIXMAN_OP_SATURATE) : pickv(OPS);
+  // OVER is the operator that is reduced most often (and has the most special paths): a fifth of all cases
+  sc.op = coin(20) ? (int)PIXMAN_OP_OVER : coin(65) ? (int)R(PIXMAN_OP_CLEAR, PIXMAN_OP_SATURATE) : pickv(OPS);
   sc.w = coin(40) ? WIDTHS[R(0, 11)] : (int)R(1, 40);
   sc.h = (int)R(1, 4);
   sc.dst.bits = gen_bits(0, 1, 1);
@@ -85,6 +86,13 @@ static OCase gen_case() {
   }
   sc.sx = (int)R(-3, 4);  // partly outside a REPEAT_NONE source
   sc.sy = (int)R(-2, 2);
+  if (!s.has_transform && coin(45)) {
+    // ... or completely inside it: what the untransformed whole-operation paths require
+    sc.sx = (int)R(0, 3);
+    sc.sy = (int)R(0, 2);
+    s.bits.w = sc.sx + sc.w + (int)R(0, 3);
+    s.bits.h = sc.sy + sc.h + (int)R(0, 2);
+  }
   sc.has_mask = 1;
   sc.mask.kind = 0;
   sc.mask.bits = gen_bits(fmt_index(PIXMAN_a8), 1, 1);
@@ -111,10 +119,10 @@ static OCase gen_case() {
   c.role = pickw({5, 3, 4});
   c.sp = (int)R(0, SP_N - 1);
   c.mp = (int)R(0, MP_N - 1);
-  c.dp = (int)R(0, DP_N - 1);
+  c.dp = coin(25) ? (int)DP_ARGB : (int)R(0, DP_N - 1);  // (only destinations with an alpha channel show a wrong alpha)
   if (c.role == 0) {
     c.pa = SP_ARGB;  // the un-optimised reference inside each pair
-    c.pb = (int)R(1, SP_N - 1);
+    c.pb = coin(30) ? (int)(coin(50) ? SP_XRGB : SP_XBGR) : (int)R(1, SP_N - 1);
     if (coin(20)) c.pa = (int)R(0, SP_N - 1);
   } else if (c.role == 1) {
     c.pa = coin(60) ? MP_NONE : (int)R(0, MP_N - 1);
